@@ -65,8 +65,7 @@ def strategy(draw):
             case["band"] = draw(st.sampled_from(["HN", "HL", "BH", "EH", "HH"]))
         case["lengths"] = [n - draw(st.integers(0, 3)) for _ in range(3)] if draw(gen.chance(3)) else [n, n, n]
         case["crlf"] = draw(st.booleans())
-        if case["negative"] in ("missing", "duplicate") and kind == "numeric":
-            pass
+        case["numfmt"] = draw(gen.choice(["c", "dot", "two-digit"]))
     case["as_path"] = draw(gen.chance(4))      # pathlib.Path instead of str
     case["multi"] = dict(nrec=draw(st.integers(1, 4)), dfn_mode=draw(st.sampled_from(["none", "scalar", "list"])),
                          kw_mode=draw(st.sampled_from(["none", "dict", "list"])), dfns=[draw(gen.floats(-720, 720)) for _ in range(4)],
@@ -121,11 +120,27 @@ def _emit_minishark(path, case, comps, rows_delta=0):
     _write_text(path, "\n".join(lines) + "\n", case["crlf"])
 
 
-def _emit_peer(path, code, x, dt, crlf, npts=None):
+def _peer_number(v, style):
+    """One sample in E-notation, 15 characters wide.  Styles: C/numpy form d.dddddddE+xx, the leading-dot
+    Fortran form of the PEER database (.dddddddE+xx) and a two-digit mantissa (Fortran scale factor, dd.ddddddE+xx)."""
+    if style == "c":
+        return "%15.7E" % v
+    mant, exp = ("%.7E" % abs(v)).split("E")
+    digits = mant.replace(".", "")
+    e = int(exp)
+    sign = "-" if v < 0 else ""
+    if style == "dot":
+        txt = f"{sign}.{digits[:7]}E{e + 1:+03d}"
+    else:
+        txt = f"{sign}{digits[:2]}.{digits[2:8]}E{e - 1:+03d}"
+    return txt.rjust(15)
+
+
+def _emit_peer(path, code, x, dt, crlf, npts=None, style="c"):
     lines = ["PEER NGA STRONG MOTION DATABASE RECORD", f"Generated-01, 1/17/1994, Verification Station, {code}",
              "VELOCITY TIME SERIES IN UNITS OF CM/S", f"NPTS=  {len(x) if npts is None else npts:5d}, DT=   {dt:.4f} SEC"]
     for i in range(0, len(x), 5):
-        lines.append("".join("%15.7E" % v for v in x[i:i + 5]))
+        lines.append("".join(_peer_number(v, style) for v in x[i:i + 5]))
     _write_text(path, "\n".join(lines) + "\n", crlf)
 
 
@@ -232,9 +247,10 @@ def build_files(case, tmp, tag="a"):
             npts = None
             if neg in ("count-more", "count-fewer") and k == 0:
                 npts = len(x) + (3 if neg == "count-more" else -2)
-            _emit_peer(path, code, x, dt, case["crlf"], npts=npts)
-            # what the text actually stores (7 significant digits)
-            written[c] = np.array([float("%15.7E" % v) for v in x])
+            style = case.get("numfmt", "c")
+            _emit_peer(path, code, x, dt, case["crlf"], npts=npts, style=style)
+            # what the text actually stores
+            written[c] = np.array([float(_peer_number(v, style)) for v in x])
             fn.append(path)
         m = min(lens.values())
         exp["dt"] = dt
